@@ -72,12 +72,17 @@ def ava_to_real(ava):
 def ava_from_real(ava):
     out = {'a': [], 'b': []}
     for k, vals in ava.items():
-        out[k] = sorted(int(v[1:]) for v in vals)
+        try:
+            out[k] = sorted(int(v[1:]) for v in vals)
+        except (ValueError, TypeError):
+            out['foreign:%s' % k] = sorted(str(v) for v in vals)      # something nobody stored: reported, not a crash
     return out
 
 
 def norm_ava(ava):
-    return dict((k, sorted(ava.get(k, []))) for k in ('a', 'b'))
+    d = dict((k, sorted(ava.get(k, []))) for k in ('a', 'b'))
+    d.update((k, v) for k, v in ava.items() if k.startswith('foreign:'))
+    return d
 
 
 class Subject(object):
@@ -88,14 +93,14 @@ class Subject(object):
         from saml2_tophat.population import Population
         self.backend, self.clock, self.variant = backend, clock, variant
         self.path = None
-        if backend == 'memory':
+        if backend in ('memory', 'memory-direct'):
             self.cache = Cache()
         else:
             os.makedirs(WORKDIR, exist_ok=True)
             self.path = os.path.join(WORKDIR, 'shelf-%s-%d' % (tag, os.getpid()))
             self.cleanup()
             self.cache = Cache(self.path)
-        self.pop = Population(self.cache) if backend != 'file-direct' else None
+        self.pop = Population(self.cache) if not backend.endswith('-direct') else None
 
     def cleanup(self):
         if self.path:
@@ -116,7 +121,7 @@ class Subject(object):
         except Exception:
             pass
         self.cache = Cache(self.path)
-        self.pop = Population(self.cache) if self.backend != 'file-direct' else None
+        self.pop = Population(self.cache) if not self.backend.endswith('-direct') else None
 
     def close(self):
         try:
@@ -145,7 +150,17 @@ class Subject(object):
                     si['issuer'] = SRC[op['i']]
                     self.pop.add_information_about_person(si)
                 else:
-                    self.cache.set(n, SRC[op['i']], info, self.t(op['exp']))
+                    # the caller re-uses one dictionary for every call and goes on using it afterwards (Set stores a copy);
+                    # every other call hands the subject over in its coded (text) form
+                    from saml2_tophat.ident import code as _code
+                    tmpl = self.__dict__.setdefault('_template', {})
+                    tmpl.clear()
+                    tmpl.update(info)
+                    if str(op['i'])[-1] in '13579b':
+                        tmpl['name_id'] = _code(n)
+                    self.cache.set(n, SRC[op['i']], tmpl, self.t(op['exp']))
+                    tmpl['ava'] = {'written-after-the-call': ['x']}
+                    tmpl['not_on_or_after'] = 1
                 return {'r': 'ok'}
             if name == 'Reset':
                 self.cache.reset(n, SRC[op['i']])
@@ -265,7 +280,7 @@ def _init():
     _CLOCK = env.Clock().install()
 
 
-BACKENDS = ('memory', 'file', 'file-direct')
+BACKENDS = ('memory', 'file', 'file-direct', 'memory-direct')
 
 
 def replay_edge(case):
@@ -431,7 +446,7 @@ def main():
 
     # 3. recorded executions validated by TLC
     ntr, length = (1500, 120) if thorough else (150, 60)
-    jobs = [(chk.seed * 100000 + k, length, BACKENDS[k % 3], variants[k % len(variants)]) for k in range(ntr)]
+    jobs = [(chk.seed * 100000 + k, length, BACKENDS[k % len(BACKENDS)], variants[k % len(variants)]) for k in range(ntr)]
     traces = []
     for case, events, err in fw.pmap(record_trace, jobs, init=_init, chunk=8):
         if err:
